@@ -46,6 +46,8 @@ DAGS = {
     "ab_dfix": T(["A", "B"], [("A", "B", ["dfix"])]),
     "ab_dpull": T(["A", "B"], [("A", "B", ["dpull2"])]),
     "ab_dpush": T(["A", "B"], [("A", "B", ["dpush"])]),
+    "ab_linear_dfix": T(["A", "B"], [("A", "B", ["linear", "dfix"])]),
+    "ab_next_scale_dfix": T(["A", "B"], [("A", "B", ["next", "scale", "dfix"])]),
     "ab_vary": T([V("A"), "B"], [("A", "B")]),
     "a_p_b": T(["A", "P", "B"], [("A", "P", ["linear"]), ("P", "B", ["scale"])]),
     "a_p_b_rev": T(["A", "P", "B"], [("A", "P"), ("P", "B")], order=[2, 1, 0]),
@@ -74,6 +76,21 @@ RINGS_OK = {
     "ring2_pull": T([NP("A"), "P", "B"], [("A", "P"), ("P", "B"), ("B", "A", ["dfix"])]),
     # delay-resolved ring with an undelayed tail feeding A; A declares the delayed input first
     "ring2_tail_in": T([NP("A"), "B", "C"], [("B", "A", ["dfix"]), ("C", "A"), ("A", "B")]),
+}
+
+BIG = {
+    "diamond": T(["A", "B", "C", "D"], [("A", "B"), ("A", "C", ["scale"]), ("B", "D"), ("C", "D", ["linear"])]),
+    "chain4": T(["A", "B", "C", "D"], [("A", "B"), ("B", "C", ["dfix"]), ("C", "D")]),
+    "chain5_pull": T(["A", "P", "B", "PQ", "C"], [("A", "P"), ("P", "B", ["dfix"]), ("B", "PQ"), ("PQ", "C", ["scale"])]),
+    "two_rings": T([NP("A"), "B", NP("C"), "D"],
+                   [("A", "B"), ("B", "A", ["dfix"]), ("C", "D"), ("D", "C", ["dfix"]), ("B", "C")]),
+}
+BIG_RINGS = {
+    "ring4_dfix": T([NP("A"), "B", "C", "D"], [("A", "B"), ("B", "C"), ("C", "D"), ("D", "A", ["dfix"])]),
+    "ring4_split": T([NP("A"), "B", "C", "D"], [("A", "B", ["dfix"]), ("B", "C"), ("C", "D", ["dfix"]), ("D", "A")]),
+    "ring5_dfix": T([NP("A"), "B", "C", "D", "E"],
+                    [("A", "B"), ("B", "C"), ("C", "D"), ("D", "E"), ("E", "A", ["dfix", "dfix"])]),
+    "ring3_chord_ok": T([NP("A"), "B", "C"], [("A", "B"), ("B", "C"), ("C", "A", ["dfix"]), ("A", "C")]),
 }
 
 RINGS_PUSH = {
@@ -105,3 +122,9 @@ HANDSHAKE = T(
      {"name": "S", "out_deps": {"o1": ["i0"]}}],
     [("M", "S"), ("S", "M", ["dfix"]), ("M", "S")])
 DOUBLE_LINK = T(["A", "B"], [("A", "B"), ("A", "B", ["scale"])])
+
+# delay adapter on the SOURCE side of a push-based time adapter (known finding, DESIGN.md section 9)
+DELAY_BEFORE_PUSH = {
+    "ab_dfix_linear": T(["A", "B"], [("A", "B", ["dfix", "linear"])]),
+    "ab_dpull_next": T(["A", "B"], [("A", "B", ["dpull1", "next"])]),
+}
